@@ -6,6 +6,7 @@
 -/
 import Nervus.Driver.Util
 import Nervus.Model.IOSteps
+import Nervus.Model.IndexSteps
 namespace Nervus.Driver.CrashStream
 open Nervus Nervus.Crash Nervus.Driver
 
@@ -353,8 +354,12 @@ def step (stream : String) (_ : Unit) (ws : List String) : Unit × String × Str
     | none => ((), "bad-op", "-", "")
     | some k =>
       if k > 13 then ((), "bad-op", "-", "") else
-      let m := if k ≥ 10 then "indexed nonode" else "absent nonode"
-      ((), m, "absent nonode", if k ≥ 10 then "C02-index-before-commit" else "")
+      -- computed on the index component of the model (`Model/IndexSteps`)
+      match ixProbe cfgOfSource k ⟨.proc, []⟩ with
+      | none => ((), "open-failed", "absent nonode", "C02-index-before-commit")
+      | some (nodes, hits) =>
+        let m := (if hits.isEmpty then "absent" else "indexed") ++ (if nodes.contains 2001 then " node" else " nonode")
+        ((), m, "absent nonode", if m != "absent nonode" then "C02-index-before-commit" else "")
   | kind :: rest =>
     if kind != "scen" && kind != "scenq" then
       match kind, rest with
